@@ -3,7 +3,7 @@
 set -e
 cd "$(dirname "$0")"
 export CARGO_NET_OFFLINE=true
-python3 -m vlib.build rel chk harness harness-chk
+python3 -m vlib.build rel chk harness harness-chk tsan
 # warm up the Miri build of the harness (first use compiles the dependency graph for Miri)
 python3 - <<'PY'
 import subprocess, sys
